@@ -195,7 +195,7 @@ def d11_signature(inst, o):
     for h in o.get("prune", {}).get("hints", []):
         if h.get("kind") == "dynamic" and not h["kept"] and h["prop"] in ge_props:
             c = h["cand"]
-            if c.get("t") == "range" and c["lo"]["t"] == "unb" and c["hi"]["t"] == "inc" and h["value"].get("k") == "int" and c["hi"]["v"].get("k") == "int" and G.unlimbs(h["value"]["v"]) > G.unlimbs(c["hi"]["v"]["v"]):
+            if c.get("t") == "range" and c["hi"]["t"] == "inc" and h["value"].get("k") == "int" and c["hi"]["v"].get("k") == "int" and G.unlimbs(h["value"]["v"]) > G.unlimbs(c["hi"]["v"]["v"]):
                 return True
             if c.get("t") in ("single", "multiple", "impossible"):   # the inverted range intersected with other filters
                 return True
